@@ -22,7 +22,7 @@ if j >= 0:
 log = subprocess.run(["git", "-C", "/repo", "log", "--reverse", "--format=%h %s"], capture_output=True,
                      text=True).stdout.strip().splitlines()
 log = [l for l in log if l.split(" ", 1)[1].startswith("fix:")]
-a = tailR.index("All `fix:` commits on /repo main, in order:")
+a = re.search(r"All `fix:` commits on /repo main, in order[^\n]*:", tailR).start()
 b = tailR.index("**Seeding waves and strengthening rounds.**")
 tailR = (tailR[:a] + "All `fix:` commits on /repo main, in order (%d):\n\n" % len(log) +
          "\n".join("    " + l for l in log) + "\n\n" + tailR[b:])
